@@ -22,6 +22,7 @@ class Shadow:
         self.ev = []
         self.fresh = 10
         self.nrules = 0
+        self.blocked = set()
 
     def tok(self):
         self.token += 1
@@ -78,6 +79,7 @@ class Shadow:
 
     def disconnect(self, c):
         self.ev.append("D.%d" % c)
+        self.blocked.discard(c)
         del self.live[c]
         self.gone.append(c)
         for k in list(self.out):
@@ -133,7 +135,7 @@ def gen_history(rnd, cfg, mode, nsteps):
         sh.connect()
     nticks = 0
     while len(sh.ev) < nsteps:
-        live = list(sh.live)
+        live = [k for k in sh.live if k not in sh.blocked]          # stalled connections write nothing
         if len(live) < 2 and sh.nextid < 7:
             sh.connect()
             continue
@@ -144,6 +146,10 @@ def gen_history(rnd, cfg, mode, nsteps):
              "third": 2 if sh.out and len(live) >= 3 else 0, "tothird": 2 if sh.out and len(live) >= 3 else 0,
              "callrs": 0.7 if sh.out or sh.done else 0.2, "sigrs": 0.5, "unsol": 0.8, "sig": 0.8, "name": 1.0, "match": 0.3,
              "tick": ((10.0 if sh.out else 2.0) if nticks < 3 else 0) if timed else 0.15}
+        if len(cfg) > 3:
+            idle = [k for k in live if not any(o[0] == k for o in sh.out)]
+            w["block"] = 2.0 if idle and len(sh.blocked) < 2 and len(live) > 2 else 0
+            w["drain"] = 1.5 if sh.blocked else 0
         if mode == "c05":
             w.update({"match": 2.5 if sh.nrules < 5 else 0.3, "name": 4, "sig": 3, "call": 6, "unsol": 2.5, "genuine": 3 if sh.out else 0, "dup": 0.5 if sh.done else 0,
                       "wrong": 0.5 if sh.out else 0, "third": 0.5 if w["third"] else 0, "tothird": 0.5 if w["tothird"] else 0})
@@ -166,15 +172,15 @@ def gen_history(rnd, cfg, mode, nsteps):
                 sh.disconnect(c)
         elif kind == "genuine":
             a, b, s = rnd.choice(sh.out)
-            if b in sh.live:
+            if b in live:
                 sh.send(b, rty, "u%d" % a, rserial=s)
         elif kind == "dup":
             a, b, s = rnd.choice(sh.done)
-            if b in sh.live:
+            if b in live:
                 sh.send(b, rty, "u%d" % a, rserial=s)
         elif kind == "wrong":
             a, b, s = rnd.choice(sh.out)
-            if b in sh.live:
+            if b in live:
                 sh.send(b, rty, "u%d" % a, rserial=s + rnd.choice((1, 2, 7)))
         elif kind == "third":
             a, b, s = rnd.choice(sh.out)
@@ -184,13 +190,13 @@ def gen_history(rnd, cfg, mode, nsteps):
         elif kind == "tothird":
             a, b, s = rnd.choice(sh.out)
             cs = [k for k in live if k != a]
-            if cs and b in sh.live:
+            if cs and b in live:
                 sh.send(b, rty, "u%d" % rnd.choice(cs), rserial=s)
         elif kind == "callrs":
             pool = sh.out + sh.done
             if pool and rnd.random() < 0.8:
                 a, b, s = rnd.choice(pool)
-                if b in sh.live:
+                if b in live:
                     sh.send(b, "c", "u%d" % a, rserial=s)
             else:
                 c = rnd.choice(live)
@@ -198,7 +204,7 @@ def gen_history(rnd, cfg, mode, nsteps):
         elif kind == "sigrs":
             if sh.out and rnd.random() < 0.7:
                 a, b, s = rnd.choice(sh.out)
-                if b in sh.live:
+                if b in live:
                     sh.send(b, "s", "u%d" % a, rserial=s)
             else:
                 c = rnd.choice(live)
@@ -211,6 +217,14 @@ def gen_history(rnd, cfg, mode, nsteps):
             sh.send(c, "s", sh.pick_dest(c))
         elif kind == "name":
             sh.name_op(rnd.choice(live))
+        elif kind == "block":
+            c = rnd.choice(idle)
+            sh.blocked.add(c)
+            sh.ev.append("B.%d" % c)
+        elif kind == "drain":
+            c = rnd.choice(sorted(sh.blocked))
+            sh.blocked.discard(c)
+            sh.ev.append("U.%d" % c)
         elif kind == "match":
             sh.add_match(rnd.choice(live))
         elif kind == "tick":
@@ -285,6 +299,20 @@ def scenarios():
         S.append(("match-name-handover", (R, 50, -1), ["C1", "C1", "C0", "C1", "R.1.20.0.0", "R.3.21.0.0", "M.2.22.1.x.x.n0", "M.3.23.1.x.x.n0", "M.1.24.1.x.n0.x",
                                                        "S.0.s.0.0.30.0.n0.0.1", "S.0.s.0.0.31.0.u1.1.2", "S.0.s.0.0.32.0.u3.0.3", "L.1.25.0", "S.0.s.0.0.33.0.n0.0.4",
                                                        "S.0.s.0.0.34.0.u1.0.5", "S.3.s.0.0.35.0.u0.0.6", "S.1.s.0.0.36.0.u0.0.7"]))
+    # stalled recipients: queue at the bus over max_outgoing_bytes -> LimitsExceeded, NO slot (4th cfg component = limit)
+    Q = 30000
+    for R in (1, 0):
+        S.append(("queue-bounce-then-reply", (R, 4, -1, Q), ["C0", "C0", "C0", "B.1", call(0, "u1", 7, 1), "S.2.s.0.0.3.0.u1.0.2", call(0, "u1", 7, 3),
+                                                            "U.1", ret(1, "u0", 9, 7, 4), call(0, "u1", 7, 5), ret(1, "u0", 10, 7, 6), ret(1, "u0", 11, 7, 7), "D.1"]))
+        S.append(("queue-bounce-then-leave", (R, 4, -1, Q), ["C0", "C0", "B.1", call(0, "u1", 7, 1), call(0, "u1", 8, 2, nr=1), "D.1", "C0", call(0, "u2", 7, 3), "D.2"]))
+        S.append(("queue-bounce-timeout", (R, 4, T, Q), ["C0", "C0", "B.1", call(0, "u1", 7, 1), "T.%d" % TICK_FULL, "U.1", ret(1, "u0", 9, 7, 2),
+                                                         call(0, "u1", 8, 3), "T.%d" % TICK_FULL]))
+        S.append(("queue-name", (R, 4, -1, Q), ["C0", "C0", "C0", "R.1.20.0.0", "R.2.21.0.0", "B.1", call(0, "n0", 7, 1), "S.0.s.0.0.8.0.n0.0.2", "D.1",
+                                                call(0, "n0", 7, 3), ret(2, "u0", 9, 7, 4)]))
+        S.append(("queue-limit", (R, 1, -1, Q), ["C0", "C0", "C0", "B.1", call(0, "u1", 7, 1), call(0, "u2", 8, 2), call(0, "u2", 9, 3), "U.1", call(0, "u1", 7, 4)]))
+        S.append(("queue-reply-serial", (R, 4, -1, Q), ["C0", "C0", "C0", call(2, "u0", 5, 1), "B.1", ret(0, "u1", 6, 5, 2), ret(0, "u2", 7, 5, 3), "S.0.s.0.0.8.9.u1.0.4", "U.1",
+                                                        ret(0, "u1", 9, 5, 5)]))
+    S.append(("queue-eavesdropper", (0, 4, -1, Q), ["C0", "C0", "C0", "M.2.20.1.x.x.x", "B.2", "S.0.s.0.0.7.0.u1.0.1", call(0, "u1", 8, 2), "U.2", "S.0.s.0.0.9.0.u1.0.3"]))
     return S
 
 
